@@ -371,6 +371,14 @@ func execute(sc scenario, cfgName, op string, fs []fault) (res result) {
 	if execMemcall {
 		e.w.UseMemcall(secretImpl)
 	}
+	// a system key handed to the KMS from anywhere but a secret that is being read sits in an ordinary heap buffer
+	// (set up after the world has its final ledger and KMS monitors)
+	e.w.Led.TrackExposure = true
+	for _, k := range []*probe.KMS{e.w.KMS, e.w.AltKMS} {
+		if k != nil {
+			k.InSecret = func(b []byte) bool { return e.w.Led.IsExposed(b) }
+		}
+	}
 	defer e.w.Close()
 	// secrets whose reference was taken by the "parent SK re-resolved" step of intermediateKeyFromEKR
 	reresolved := map[string]bool{}
@@ -491,7 +499,7 @@ func execute(sc scenario, cfgName, op string, fs []fault) (res result) {
 	}
 	for i, buf := range e.w.KMS.TakeRetained() {
 		if !allZero(buf) {
-			res.c10 = append(res.c10, verdict{"kms-decrypt-output-not-wiped", fmt.Sprintf("KMS.DecryptKey output #%d (%d bytes) still holds non-zero bytes after %s returned (err=%v)", i, len(buf), op, err)})
+			res.c10 = append(res.c10, verdict{"kms-decrypt-output-not-wiped", fmt.Sprintf("retained KMS buffer #%d (%d bytes: a DecryptKey output, or a heap copy of a system key handed to EncryptKey) still holds non-zero bytes after %s returned (err=%v)", i, len(buf), op, err)})
 		}
 	}
 	for _, sr := range e.w.Led.RecsFrom(ledStart) {
